@@ -98,7 +98,8 @@ func (cl *CheckpointList) Save(fs storage.FileSystem) (string, error) {
 
 	// Clear the destroyed checkpoints; removals decided meanwhile stay pending
 	cl.mu.Lock()
-	cl.checkpointsPendingRemoval = cl.checkpointsPendingRemoval[len(pendingRemoval):]
+	// (copied, so that the destroyed checkpoints and their tables become unreachable)
+	cl.checkpointsPendingRemoval = slices.Clone(cl.checkpointsPendingRemoval[len(pendingRemoval):])
 	cl.mu.Unlock()
 
 	return file.URI(), nil
